@@ -122,3 +122,72 @@ class Gen:
         # funcarg: strtol base must be 0 or 2..36
         return "funcarg", self.guard("%s == 0 || (%s >= 2 && %s <= 36)" % (b, b, b), "%s != 0 && (%s < 2 || %s > 36)" % (b, b, b),
                                      ["r += (int)strtol(\"12\", 0, %s);" % b])
+
+
+WTYPES = [("_Bool", 1, False), ("unsigned char", 8, False), ("signed char", 8, True), ("unsigned short", 16, False), ("short", 16, True),
+          ("unsigned int", 32, False), ("int", 32, True), ("unsigned long", 64, False), ("long", 64, True),
+          ("unsigned long long", 64, False), ("long long", 64, True)]
+
+
+class WidthGen(Gen):
+    """Third fixed family (rounds w<r>): locals of every integer width / signedness, compound assignments
+    (<<= >>= += -= *= /= %= &= |= ^=) and plain operators, shift counts / divisors at the interesting boundaries
+    (narrow width, narrow width - 1, int width - 1, promoted width - 1), guarded so that every execution is defined
+    (the left operand of a shift is promoted: `unsigned char c; c >>= 8;` is fine)."""
+
+    def function(self, name):
+        rng = self.rng
+        self.params = ["x", "y"]
+        self.tmp = 0
+        body, ops = ["  int r = 0;"], set()
+        for _ in range(rng.randint(2, 4)):
+            op, lines = self.wop()
+            ops.add(op)
+            body += lines
+        body.append("  return r;")
+        text = ["int %s(int x, int y) {" % name] + body + ["}"]
+        loops = "".join("for (int %s = %d; %s <= %d; %s++) " % (p, DOM[0], p, DOM[-1], p) for p in self.params)
+        driver = "{ volatile int s_ = 0; %ss_ += %s(x, y); }" % (loops, name)
+        return GFunc(name, text, driver, ops, "each parameter in [%d, %d]" % (DOM[0], DOM[-1]))
+
+    def wop(self):
+        rng = self.rng
+        t, w, signed = rng.choice(WTYPES)
+        P = max(32, w)                       # width of the promoted left operand
+        psigned = signed or w < 32           # narrow types promote to (signed) int
+        v = self.fresh("v")
+        a, b = self.v(), self.v()
+        decl = ["  %s %s = (%s)%s;" % (t, v, t, a)]
+        use = ["  r += (int)(%s & 255);" % v] if t != "_Bool" else ["  r += %s;" % v]
+        k = rng.choice(["shr_c", "shr_c", "shl_c", "shl_c", "sh_var", "sh_plain", "arith_c", "divmod_c", "bits_c", "index"])
+        tag = "%s:%s" % (k, t.replace(" ", "_"))
+        bounds = sorted({c for c in (w - 1, w, 31, P - 1, 7, 8, 15, 16) if 0 <= c < P})
+        if k == "shr_c":
+            c = rng.choice(bounds)
+            pre = ["  if (%s < 0) {" % v, "    %s = 0;" % v, "  }"] if signed else []       # keep >> of negative values out (implementation-defined)
+            return tag, decl + pre + ["  %s >>= %d;" % (v, c)] + use
+        if k == "shl_c":
+            lim = P - 2 if psigned else P - 1
+            c = rng.choice([c_ for c_ in bounds if c_ <= lim] or [0])
+            return tag, decl + ["  %s &= 1;" % v, "  %s <<= %d;" % (v, c)] + use
+        if k == "sh_var":
+            lim = P - 1 if not psigned else P - 2
+            op = rng.choice(["<<=", ">>="])
+            pre = ["  %s &= 1;" % v]
+            return tag, decl + pre + self.guard("%s >= 0 && %s <= %d" % (b, b, lim), "%s < 0 || %s > %d" % (b, b, lim), ["%s %s %s;" % (v, op, b)]) + use
+        if k == "sh_plain":
+            c = rng.choice(bounds)
+            pre = ["  if (%s < 0) {" % v, "    %s = 0;" % v, "  }"] if signed else []
+            return tag, decl + pre + ["  r ^= (int)((%s >> %d) & 1);" % (v, c)] + use
+        if k == "arith_c":
+            op = rng.choice(["+=", "-=", "*="])
+            rhs = rng.choice([b, "3", "2", "100"])
+            return tag, decl + ["  %s %s %s;" % (v, op, rhs)] + use
+        if k == "divmod_c":
+            op = rng.choice(["/=", "%="])
+            d = rng.choice([b, "%s - %d" % (b, rng.randint(0, 9))])
+            return tag, decl + self.guard("(%s) > 0" % d, "(%s) <= 0" % d, ["%s %s (%s);" % (v, op, d)]) + use
+        if k == "bits_c":
+            op = rng.choice(["&=", "|=", "^="])
+            return tag, decl + ["  %s %s %s;" % (v, op, rng.choice(["12", "255", "1", b]))] + use
+        return tag, decl + ["  r += g2[%s & 7];" % v] + use
